@@ -2,6 +2,8 @@ import KyupyVerif.Drv.Sdf
 import KyupyVerif.Drv.Encode
 import KyupyVerif.Drv.Stil
 import KyupyVerif.Drv.Def
+import KyupyVerif.Drv.Datasheet
+import KyupyVerif.Drv.Traverse
 /-! Stateless driver extensions: each module `KyupyVerif/Drv/<Name>.lean` defines
 `handle : String → List String → Option String` (command word, remaining tokens → answer, or `none`
 when the command is not its own) and is listed in `extHandlers` below. -/
@@ -11,7 +13,9 @@ def extHandlers : List (String → List String → Option String) := [
   KV.Drv.Sdf.handle,
   KV.Drv.Encode.handle,
   KV.Drv.Stil.handle,
-  KV.Drv.Def.handle
+  KV.Drv.Def.handle,
+  KV.Drv.Datasheet.handle,
+  KV.Drv.Traverse.handle
 ]
 
 def tryExt (cmd : String) (args : List String) : Option String :=
